@@ -14,6 +14,8 @@
 #include <xercesc/util/regx/RangeToken.hpp>
 #undef private
 #include <xercesc/util/regx/RegularExpression.hpp>
+#include <xercesc/util/regx/Match.hpp>
+#include <xercesc/util/RefArrayVectorOf.hpp>
 #include <xercesc/util/regx/TokenFactory.hpp>
 #include <xercesc/util/regx/RegxDefs.hpp>
 #include <xercesc/util/ParseException.hpp>
@@ -271,6 +273,158 @@ static std::string doRng(const std::string& op, const std::string& A, const std:
     return "bad-request";
 }
 
+// ---- XPath-flavoured (non-schema) API: options i s m x F H, Match objects, windows, tokenize / replace ------------
+//   xp <mode> <opts|-> <pats> <strs>      pats: comma separated patterns; strs entries: hex or hex:a:b (window, code-point indices)
+//   mode b: matches(s[,a,b])                       -> bits
+//        f: matches(s[,a,b], &fresh Match)         -> 1:s0-e0,s1-e1,..  |  0     (UTF-16 unit positions)
+//        r: the same with ONE Match object reused for every pattern and subject of the request
+//        i: one compiled expression, subjects forwards / backwards / forwards again (fresh Match each) -> as f, or UNSTABLE
+//        t: tokenize(s), replace(s,"$0"), replace(s,"[$0|$1]") and their emulation from match positions
+struct Subj { U16 s; size_t a, b; bool win; std::vector<uint32_t> cps; };
+
+static std::vector<Subj> parseSubjects(const std::string& strs) {
+    std::vector<Subj> out;
+    for (auto& e : splitComma(strs)) {
+        Subj x;
+        size_t c1 = e.find(':');
+        std::string h = c1 == std::string::npos ? e : e.substr(0, c1);
+        x.cps = parseHex(h, 6);
+        x.s = toU16(x.cps);
+        x.win = c1 != std::string::npos;
+        x.a = 0; x.b = x.s.size() - 1;
+        if (x.win) {
+            size_t c2 = e.find(':', c1 + 1);
+            size_t ca = atoi(e.substr(c1 + 1, c2 - c1 - 1).c_str()), cb = atoi(e.substr(c2 + 1).c_str());
+            size_t u = 0;
+            for (size_t i = 0; i <= x.cps.size(); i++) {
+                if (i == ca) x.a = u;
+                if (i == cb) x.b = u;
+                if (i < x.cps.size()) u += x.cps[i] >= 0x10000 ? 2 : 1;
+            }
+        }
+        out.push_back(x);
+    }
+    return out;
+}
+
+static std::string showMatch(bool ok, Match& m) {
+    if (!ok) return "0";
+    std::string r = "1:";
+    try {
+        int n = m.getNoGroups();
+        for (int g = 0; g < n; g++) {
+            if (g) r += ",";
+            r += std::to_string(m.getStartPos(g)) + "_" + std::to_string(m.getEndPos(g));
+        }
+    } catch (const XMLException&) { r += "E"; }
+    return r;
+}
+
+static std::string matchWith(RegularExpression* re, const Subj& x, Match* m) {
+    if (sigsetjmp(gJmp, 1) != 0) return "C";
+    gArmed = 1;
+    try {
+        bool ok = m ? re->matches(x.s.data(), x.a, x.b, m) : re->matches(x.s.data(), x.a, x.b);
+        gArmed = 0;
+        if (!m) return ok ? "1" : "0";
+        return showMatch(ok, *m);
+    } catch (const XMLException&) { gArmed = 0; return "E"; } catch (...) { gArmed = 0; return "F"; }
+}
+
+static std::string hexOf(const XMLCh* p, size_t n) { return showHex(p, n, 4); }
+
+static void subIn(const std::string& rep, const XMLCh* s, Match& m, U16& out) {
+    for (size_t i = 0; i < rep.size(); i++) {
+        if (rep[i] == '$') {
+            int g = rep[++i] - '0';
+            if (g < m.getNoGroups()) {
+                int a = m.getStartPos(g), b = m.getEndPos(g);
+                for (int k = a; k < b; k++) out.push_back(s[k]);
+            }
+        } else out.push_back((XMLCh)rep[i]);
+    }
+}
+
+static std::string tokOne(RegularExpression* re, const Subj& x) {
+    if (sigsetjmp(gJmp, 1) != 0) return "C";
+    gArmed = 1;
+    std::string out;
+    try {
+        size_t len = x.s.size() - 1;
+        // emulation from match positions: leftmost match at or after p inside the window [p, len)
+        std::vector<std::pair<int, int> > ms;
+        std::vector<U16> emuTok;
+        U16 emuRep;
+        const std::string rep2 = "[$0|$1]";
+        size_t p = 0, guard = 0;
+        while (p <= len && guard++ < 4 * len + 8) {
+            Match m;
+            if (!re->matches(x.s.data(), p, len, &m)) break;
+            int a = m.getStartPos(0), b = m.getEndPos(0);
+            emuTok.push_back(U16(x.s.begin() + p, x.s.begin() + a));
+            for (int k = (int)p; k < a; k++) emuRep.push_back(x.s[k]);
+            subIn(rep2, x.s.data(), m, emuRep);
+            if (b == (int)p && a == (int)p) { p = len + 1; out = "Z"; break; }     // empty match: not comparable
+            p = b;
+        }
+        if (out == "Z") { gArmed = 0; return "Z"; }
+        if (p <= len) { emuTok.push_back(U16(x.s.begin() + p, x.s.begin() + len)); for (size_t k = p; k < len; k++) emuRep.push_back(x.s[k]); }
+        RefArrayVectorOf<XMLCh>* toks = re->tokenize(x.s.data());
+        out = "T";
+        for (XMLSize_t i = 0; i < toks->size(); i++) out += (i ? "/" : "") + hexOf(toks->elementAt(i), XMLString::stringLen(toks->elementAt(i)));
+        delete toks;
+        out += "~E";
+        for (size_t i = 0; i < emuTok.size(); i++) out += (i ? "/" : "") + hexOf(emuTok[i].data(), emuTok[i].size());
+        U16 d0 = toU16(std::vector<uint32_t>{'$', '0'});
+        XMLCh* r0 = re->replace(x.s.data(), d0.data());
+        out += "~R" + hexOf(r0, XMLString::stringLen(r0)) + "~S" + hexOf(x.s.data(), len);
+        XMLPlatformUtils::fgMemoryManager->deallocate(r0);
+        std::vector<uint32_t> r2v(rep2.begin(), rep2.end());
+        U16 d2 = toU16(r2v);
+        XMLCh* r2 = re->replace(x.s.data(), d2.data());
+        out += "~Q" + hexOf(r2, XMLString::stringLen(r2)) + "~P" + hexOf(emuRep.data(), emuRep.size());
+        XMLPlatformUtils::fgMemoryManager->deallocate(r2);
+        gArmed = 0;
+        return out;
+    } catch (const XMLException& e) { gArmed = 0; return "X" + narrow(e.getType()); } catch (...) { gArmed = 0; return "F"; }
+}
+
+static std::string doXp(const std::string& mode, const std::string& opts, const std::string& pats, const std::string& strs) {
+    std::vector<uint32_t> o;
+    for (char c : opts) if (c != '-') o.push_back((unsigned char)c);
+    U16 uopts = toU16(o);
+    std::vector<Subj> subj = parseSubjects(strs);
+    Match shared;
+    std::string out;
+    bool firstPat = true;
+    for (auto& ph : splitComma(pats)) {
+        if (!firstPat) out += "|";
+        firstPat = false;
+        std::string err;
+        std::unique_ptr<RegularExpression> re(compileRe(toU16(parseHex(ph, 6)), uopts, err));
+        if (!re) { out += err; continue; }
+        std::vector<std::string> res;
+        if (mode == "i") {
+            std::vector<std::string> fwd, bwd(subj.size()), again;
+            for (auto& x : subj) { Match m; fwd.push_back(matchWith(re.get(), x, &m)); }
+            for (size_t k = subj.size(); k > 0; k--) { Match m; bwd[k - 1] = matchWith(re.get(), subj[k - 1], &m); }
+            for (auto& x : subj) { Match m; again.push_back(matchWith(re.get(), x, &m)); Match m2; matchWith(re.get(), x, &m2); }
+            res = fwd;
+            if (fwd != bwd || fwd != again) res.push_back("UNSTABLE");
+        } else {
+            for (auto& x : subj) {
+                if (mode == "b") res.push_back(matchWith(re.get(), x, 0));
+                else if (mode == "f") { Match m; res.push_back(matchWith(re.get(), x, &m)); }
+                else if (mode == "r") res.push_back(matchWith(re.get(), x, &shared));
+                else if (mode == "t") res.push_back(tokOne(re.get(), x));
+            }
+        }
+        for (size_t k = 0; k < res.size(); k++) out += (k ? ";" : "") + res[k];
+        if (res.empty()) out += "-";
+    }
+    return "ok " + out;
+}
+
 static std::string doNamed(const std::string& k) {
     const XMLCh* key = 0;
     bool comp = false;
@@ -296,6 +450,7 @@ int main() {
         std::string r = "bad-request";
         if (a.size() == 4 && (a[0] == "re" || a[0] == "re1" || a[0] == "reil")) r = doRe(a[0], a[1], a[2], a[3]);
         else if (a.size() == 3 && a[0] == "xsd") r = doXsd(a[1], a[2]);
+        else if (a.size() == 5 && a[0] == "xp") r = doXp(a[1], a[2], a[3], a[4]);
         else if (a.size() == 2 && a[0] == "named") r = doNamed(a[1]);
         else if (a.size() == 4 && a[0] == "rng") r = doRng(a[1], a[2], a[3]);
         std::cout << r << "\n";
